@@ -438,6 +438,18 @@ class Repo:
                     return {"int": int, "float": float, "str": str}[fn](v)
                 except (ValueError, TypeError):
                     return None
+            if fn == "csv_scope" and len(node.args) == 2 and \
+                    not node.keywords:
+                # pycommons.io.csv.csv_scope: scope + "." + key
+                r = self.resolve_expr(module, node.func)
+                if (isinstance(r, tuple) and r[0] == "ext") or (
+                        isinstance(r, FuncInfo)
+                        and r.module.name == "pycommons.io.csv"):
+                    a = self.const(module, node.args[0], _depth + 1)
+                    b = self.const(module, node.args[1], _depth + 1)
+                    if isinstance(a, str) and isinstance(b, str) and a \
+                            and b:
+                        return f"{a}.{b}"
         return None
 
     def const_in(self, fi: FuncInfo, node: ast.expr, _d: int = 0) -> Any:
